@@ -27,7 +27,7 @@ COMPONENTS = {
              'Individual.__eq__ / __hash__ (set de-duplication)', 'the five run loops'],
     'stub': ['user objective', 'PRNG seam (also reports the tournament draw)', 'joblib', 'time.time', 'uuid1'],
 }
-PROBES_EXPECTED = ['near_equal_crowding', 'moved_onto_another_design', 'truncate_other_k', 'truncate_k_ge_len', 'truncate_calls', 'truncate_cut_inside_front', 'truncate_with_duplicates', 'crowding_calls', 'crowding_small_front',
+PROBES_EXPECTED = ['same_design_other_class', 'near_equal_crowding', 'moved_onto_another_design', 'truncate_other_k', 'truncate_k_ge_len', 'truncate_calls', 'truncate_cut_inside_front', 'truncate_with_duplicates', 'crowding_calls', 'crowding_small_front',
                    'crowding_exact_formula', 'crowding_with_ties', 'crowding_zero_range', 'tournament_calls',
                    'tournament_front_decides', 'tournament_dominance_decides', 'tournament_random']
 
@@ -77,7 +77,16 @@ def hooks(ctx, w, D):
                     # re-rolled designs): the next truncation sees one design twice and returns it once
                     clones[0].vector = list(clones[1].vector)
                     ctx.probe('moved_onto_another_design')
-                    judge_truncate(clones, n, orig(list(clones), n))
+                    if judge_truncate(clones, n, orig(list(clones), n)):
+                        # ... and the same design once more as a plain Individual (a design read back from a store next to the
+                        # run's own design class): still one design
+                        saved = Individual.counter
+                        twin = Individual(list(clones[1].vector))
+                        Individual.counter = saved
+                        twin.features['front_number'] = clones[1].features['front_number']
+                        twin.features['crowding_distance'] = clones[1].features['crowding_distance']
+                        ctx.probe('same_design_other_class')
+                        judge_truncate(clones + [twin], n + 1, orig(clones + [twin], n + 1))
         return res
 
     def judge_truncate(pool, size, res):
